@@ -2,7 +2,10 @@
 
 # assumptions allowed per Verus unit ("kind:name"); anything else found by the mechanical scan => undecided
 TRUSTED_ALLOW = {
-    '*': set(),
+    # le.rs: little-endian shims (assumed std semantics of {to,from}_le_bytes), included by every unit
+    '*': {'external_body:shim_u16_to_le_bytes', 'external_body:shim_u32_to_le_bytes', 'external_body:shim_u64_to_le_bytes',
+          'external_body:shim_u16_from_le_bytes', 'external_body:shim_u64_from_le_bytes', 'external_body:shim_le_u16',
+          'external_body:shim_le_u32', 'external_body:shim_le_u64'},
     'bits': {
         'external_body:vec_drain_prefix', 'external_body:vec_drain_all', 'external_body:shim_u128_from_le_bytes',
         'external_body:shim_u64_to_le_bytes', 'external_body:shim_u32_to_le_bytes', 'external_body:shim_i128_ilog2',
